@@ -303,7 +303,7 @@ t_x509_minimal(const uint8_t *data, size_t len)
 {
 	br_x509_minimal_context *xc;
 	br_name_element ne[3];
-	char nb[3][64];
+	char *nb[3] = { NULL, NULL, NULL };   /* exact-size heap blocks: an element of exactly the buffer length must be refused */
 	static const unsigned char oid_cn[] = { 0x03, 0x55, 0x04, 0x03 };
 	static const unsigned char oid_dns[] = { 0x00, 0x02 };
 	static const unsigned char oid_o[] = { 0x03, 0x55, 0x04, 0x0A };
@@ -322,7 +322,12 @@ t_x509_minimal(const uint8_t *data, size_t len)
 	br_x509_minimal_set_time(xc, 738000, 0);
 	if (data[0] & 2) {
 		ne[0].oid = oid_cn; ne[1].oid = oid_dns; ne[2].oid = oid_o;
-		for (i = 0; i < 3; i ++) { ne[i].buf = nb[i]; ne[i].len = (data[0] & 4) ? 8 : sizeof nb[i]; }
+		for (i = 0; i < 3; i ++) {
+			/* buffer lengths 1..32 chosen by the input (bits 5-7 of the first byte and the chunk seed), or 64 */
+			size_t bl = (data[0] & 4) ? 1 + (((size_t)(data[0] >> 5) * 4 + (size_t)(data[1] & 3) + (size_t)i * 5) & 31) : 64;
+			nb[i] = malloc(bl); memset(nb[i], 0x55, bl);
+			ne[i].buf = nb[i]; ne[i].len = bl;
+		}
 		br_x509_minimal_set_name_elements(xc, ne, 3);
 	}
 	cst = data[1] >= 0xFD && data[1] != 0xFF ? 0xFFFFFF00u + data[1] : data[1];
@@ -368,6 +373,7 @@ t_x509_minimal(const uint8_t *data, size_t len)
 			}
 		}
 	}
+	free(nb[0]); free(nb[1]); free(nb[2]);
 	free(xc);
 }
 
